@@ -664,3 +664,58 @@ Proof.
   rewrite E1, E2. assert (Ew : wrap64 (s + 0) = s) by (unfold wrap64, two63, two64; divlia).
   rewrite Ew. apply format_clock_chars. split; assumption.
 Qed.
+
+
+Local Open Scope N_scope.
+(* An independent reading of a formatted instant: the text is YYYY-MM-DDTHH:MM:SS[.fraction]Z with
+   explicit decimal digits, the fields are a real calendar day and a time of day, the zone is the
+   literal Z, and the instant they denote IN UTC (days since 1970-01-01 of the proleptic Gregorian
+   date, times 86400, plus the time of day) is the encoded one. *)
+Definition d2 (x : Z) : list N := [dch (x / 10); dch (x mod 10)].
+Definition d4 (x : Z) : list N := [dch (x / 1000); dch (x / 100 mod 10); dch (x / 10 mod 10); dch (x mod 10)].
+
+Theorem format_rfc3339_shape s ns : ts_range s ns ->
+  exists y mo d hh mi ss (frac : list N),
+    (1 <= y <= 9999 /\ 1 <= mo <= 12 /\ 1 <= d <= days_in mo y /\
+     0 <= hh <= 23 /\ 0 <= mi <= 59 /\ 0 <= ss <= 59)%Z /\
+    (s = days_from_civil y mo d * 86400 + hh * 3600 + mi * 60 + ss)%Z /\
+    format_rfc3339nano s ns =
+      d4 y ++ [45] ++ d2 mo ++ [45] ++ d2 d ++ [84] ++ d2 hh ++ [58] ++ d2 mi ++ [58] ++ d2 ss ++ frac ++ [90] /\
+    (frac = [] /\ ns = 0%Z \/
+     exists ds, frac = 46 :: ds /\ ds <> [] /\ forallb is_digit ds = true /\ (length ds <= 9)%nat).
+Proof.
+  intros [Hs Hns]. unfold format_rfc3339nano, go_unix.
+  assert (E1 : (ns / 1000000000 = 0)%Z) by divlia. assert (E2 : (ns mod 1000000000 = ns)%Z) by divlia.
+  rewrite E1, E2. assert (Ew : wrap64 (s + 0) = s) by (unfold wrap64, two63, two64; divlia).
+  rewrite Ew. unfold format_clock.
+  assert (Hw : abs_wrap s = s).
+  { unfold abs_wrap, unix_to_absolute. destruct (s <? - (9223372028741760000))%Z eqn:E; [lia|reflexivity]. }
+  rewrite Hw. set (days := (s / 86400)%Z). set (sod := (s mod 86400)%Z).
+  assert (Hsod : (0 <= sod < 86400)%Z) by (unfold sod; divlia).
+  assert (Hds : (s = days * 86400 + sod)%Z) by (unfold days, sod; divlia).
+  assert (Hdr : (-719162 <= days <= 2932896)%Z) by (unfold days; divlia).
+  pose proof (civil_roundtrip days) as Hrt. pose proof (civil_year_range days Hdr) as Hyr.
+  destruct (civil_from_days days) as [[y m] d]. destruct Hrt as (Hdfc & Hm & Hd).
+  pose proof (days_in_le m y) as Hdi.
+  set (h := (sod / 3600)%Z). set (mi := (sod mod 3600 / 60)%Z). set (sc := (sod mod 60)%Z).
+  assert (Hh : (0 <= h <= 23)%Z) by (unfold h; divlia).
+  assert (Hmi : (0 <= mi <= 59)%Z) by (unfold mi; divlia).
+  assert (Hsc : (0 <= sc <= 59)%Z) by (unfold sc; divlia).
+  assert (Hsum : (h * 3600 + mi * 60 + sc = sod)%Z) by (unfold h, mi, sc; divlia).
+  rewrite (append_int_4 y) by lia. rewrite (append_int_2 m), (append_int_2 d), (append_int_2 h), (append_int_2 mi), (append_int_2 sc) by lia.
+  exists y, m, d, h, mi, sc, (frac_digits ns).
+  split; [lia|]. split; [rewrite Hdfc; lia|]. split; [unfold d4, d2; reflexivity|].
+  destruct (Z.eq_dec ns 0) as [->|Hnz]; [left; split; reflexivity|right].
+  unfold frac_digits. replace (ns =? 0)%Z with false by lia.
+  destruct (frac_parse ns ltac:(lia)) as (c & ds & Hf & Hdig & _).
+  unfold frac_digits in Hf. replace (ns =? 0)%Z with false in Hf by lia. injection Hf as Hf.
+  eexists. split; [reflexivity|]. rewrite Hf. split; [discriminate|]. split; [exact Hdig|].
+  rewrite <- Hf. rewrite rev_length.
+  assert (Hlen : forall l, (length (trim_zeros_rev l) <= length l)%nat).
+  { induction l as [|a l IH]; [cbn; lia|]. cbn [trim_zeros_rev]. destruct (N.eqb a 48); cbn [length]; lia. }
+  eapply Nat.le_trans; [apply Hlen|]. rewrite rev_length.
+  unfold append_int. replace (ns <? 0)%Z with false by lia. cbn [Nat.eqb andb app].
+  assert (Hd9 : (length (digitsZ ns) <= 9)%nat).
+  { unfold digitsZ. apply digits_of_len; [|lia]. change (10 ^ N.of_nat 9) with 1000000000. lia. }
+  rewrite app_length, repeat_length. lia.
+Qed.
